@@ -200,7 +200,9 @@ func tryReset(callee string, fn func()) {
 // innerTo is marshaled by the nested-reset behaviour: a type with its own MarshalJSONTo.
 type innerTo struct{}
 
-func (innerTo) MarshalJSONTo(e *jsontext.Encoder) error { return e.WriteToken(jsontext.String("inner")) }
+func (innerTo) MarshalJSONTo(e *jsontext.Encoder) error {
+	return e.WriteToken(jsontext.String("inner"))
+}
 
 type innerFrom struct{}
 
